@@ -45,10 +45,11 @@ class PipelineDuplicateBuffers(RewritePattern):
             # remove from the block
             op.body.block.args[0].replace_all_uses_with(buffer)
             op.body.block.erase_arg(op.body.block.args[0])
-            # remove from the args
+            # remove from the args (only this occurrence: the same buffer may be passed
+            # several times, every occurrence has its own block argument)
             new_stage = StageOp(
-                ins=[x for x in op.ins if x is not buffer],
-                outs=[x for x in op.outs if x is not buffer],
+                ins=op.ins[1:] if len(op.ins) > 0 else op.ins,
+                outs=op.outs[1:] if len(op.ins) == 0 else op.outs,
                 index=op.index,
                 body=rewriter.move_region_contents_to_new_regions(op.body),
             )
